@@ -12,8 +12,12 @@
 EXTENDS Naturals, Sequences, FiniteSets, TLC, Json, IOUtils
 CONSTANTS Export
 Cfgs == [kind : {"call", "push"}, marker : {"none", "secure"}, accept : {"absent", "true", "false"}, enforce : BOOLEAN,
-         keys : {"equal", "different"}, keylen : {16, 24, 32}, codec : {"j", "p"}, body : {"short", "long", "special", "empty"}]
-CfgOK(c) == (c.kind = "push" => ~c.enforce /\ c.accept = "absent")
+         keys : {"equal", "different"}, keylen : {16, 24, 32}, codec : {"j", "p"}, body : {"short", "long", "special", "empty"},
+         resend : BOOLEAN]
+\* resend: the message is the first one after a connection loss on a redial-enabled session, so the session
+\* redials inside Call / Push and writes the message again; the plugin must not process it twice
+CfgOK(c) == /\ (c.kind = "push" => ~c.enforce /\ c.accept = "absent")
+            /\ (c.resend => c.keys = "equal" /\ c.keylen = 16 /\ c.body = "short" /\ c.accept = "absent" /\ ~c.enforce)
 ReqEnc(c)  == c.marker = "secure"
 KeysOK(c)  == c.keys = "equal"
 Invoked(c) == ~ReqEnc(c) \/ KeysOK(c)
@@ -34,7 +38,7 @@ Spec == Init /\ [][Run]_vars
 OracleSane == /\ (ReqEnc(c) /\ ~KeysOK(c) => ~Invoked(c))
               /\ (c.marker = "none" /\ c.accept # "true" /\ ~c.enforce /\ c.kind = "call" => ReplyEnc(c) = "no" /\ Status(c) = "ok")
 Emit == Export = "" \/
-  Serialize(ToJson([kind |-> c.kind, marker |-> c.marker, accept |-> c.accept, enforce |-> c.enforce, keys |-> c.keys, keylen |-> c.keylen,
+  Serialize(ToJson([kind |-> c.kind, marker |-> c.marker, accept |-> c.accept, enforce |-> c.enforce, keys |-> c.keys, keylen |-> c.keylen, resend |-> c.resend,
                     codec |-> c.codec, body |-> c.body, reqenc |-> ReqEnc(c), invoked |-> Invoked(c), replyenc |-> ReplyEnc(c), status |-> Status(c)]) \o "\n", Export,
             [format |-> "TXT", charset |-> "UTF-8", openOptions |-> <<"WRITE", "CREATE", "APPEND">>]).exitValue = 0
 =============================================================================
